@@ -57,13 +57,14 @@ _built = {}
 
 FEATURE_SETS = {
     # name -> (features for vfeat, nightly?)
-    "default": ("std,cache-type-score,fix-weight-length,tag-prediction,charwise-pma", False),
+    # (kytea = the converter; it needs std and is therefore absent from the alloc-only configuration)
+    "default": ("std,cache-type-score,fix-weight-length,tag-prediction,charwise-pma,kytea", False),
     "alloc-only": ("alloc", False),
-    "no-cache": ("std,fix-weight-length,tag-prediction,charwise-pma", False),
-    "no-fix": ("std,cache-type-score,tag-prediction,charwise-pma", False),
-    "no-charwise": ("std,cache-type-score,fix-weight-length,tag-prediction", False),
-    "no-tags": ("std,cache-type-score,fix-weight-length,charwise-pma", False),
-    "simd": ("std,cache-type-score,fix-weight-length,tag-prediction,charwise-pma,portable-simd", True),
+    "no-cache": ("std,fix-weight-length,tag-prediction,charwise-pma,kytea", False),
+    "no-fix": ("std,cache-type-score,tag-prediction,charwise-pma,kytea", False),
+    "no-charwise": ("std,cache-type-score,fix-weight-length,tag-prediction,kytea", False),
+    "no-tags": ("std,cache-type-score,fix-weight-length,charwise-pma,kytea", False),
+    "simd": ("std,cache-type-score,fix-weight-length,tag-prediction,charwise-pma,portable-simd,kytea", True),
 }
 
 
@@ -73,6 +74,8 @@ def all_feature_sets():
     out = {}
     for mask in range(32):
         fs = [f for i, f in enumerate(base) if mask >> i & 1]
+        if "std" in fs:
+            fs = fs + ["kytea"]
         name = "fs%02d" % mask
         out[name] = (",".join(["alloc"] + fs), False)
         if "fix-weight-length" in fs:
